@@ -94,35 +94,35 @@ theorem owned_mark_survives_every_step {s s' : St} (h : Reachable outsCfg tables
     | (cases hs; simp_all [setCl] <;> grind)
 end
 
-/-- non-vacuity: a first compaction left tables 1 and 2 obsolete; a second one has finished output 4, has
-output 5 open, and a whole deleteObsoleteFiles runs in that window: it unlinks 1 and 2 only; after the commit
-the current version lists 4 and 5 and both are in the directory. -/
+/-- non-vacuity: a first compaction left tables 1 and 2 obsolete; a second one has finished output 5, has
+output 6 open, and a whole deleteObsoleteFiles runs in that window: it unlinks 1 and 2 only; after the commit
+the current version lists 5 and 6 and both are in the directory. -/
 def okSched : List Act :=
   [.start [1, 2], .open, .finish, .install, .cleanup, .drop 1, .drop 2,
    .start [3], .open, .finish, .open, .cList 0, .cPend 0, .cActive 0, .cDel 0, .cDel 0, .cDone 0,
    .finish, .install, .cleanup]
 
 example : (run outsCfg (init [1, 2] 3) okSched).map (fun s => (s.cur, s.disk, s.pending, s.old)) =
-    some ([4, 5], [5, 4, 3], [], [3]) := by decide
+    some ([5, 6], [3, 5, 6], [], [3]) := by decide
 
-example : ∃ s, Reachable outsCfg [1, 2] 3 s ∧ s.wphase = .merging ∧ s.outputs = [4] ∧ s.builder = some 5 := by
+example : ∃ s, Reachable outsCfg [1, 2] 3 s ∧ s.wphase = .merging ∧ s.outputs = [5] ∧ s.builder = some 6 := by
   refine ⟨_, .step .open (.step .finish (.step .open (.step (.start [3]) (.step (.drop 2) (.step (.drop 1)
     (.step .cleanup (.step .install (.step .finish (.step .open (.step (.start [1, 2]) .init rfl) rfl) rfl)
     rfl) rfl) rfl) rfl) rfl) rfl) rfl) rfl, ?_, ?_, ?_⟩ <;> rfl
 
 namespace Neg
 /-- the same window when finishCompactionOutputFile releases the mark itself: the cleaner's delete list now
-contains the finished output 4. -/
+contains the finished output 5. -/
 def earlySched : List Act :=
   [.start [1, 2], .open, .finish, .install, .cleanup, .drop 1, .drop 2,
    .start [3], .open, .finish, .open, .cList 0, .cPend 0, .cActive 0, .cDel 0, .cDel 0, .cDel 0, .cDone 0,
    .finish, .install, .cleanup]
 
-/-- with `earlyRelease = true` the committed version lists table 4, which a concurrent cleanup unlinked
+/-- with `earlyRelease = true` the committed version lists table 5, which a concurrent cleanup unlinked
 while the compaction was still merging. -/
 theorem early_release_unlinks_finished_output :
     (run { earlyRelease := true } (init [1, 2] 3) earlySched).map (fun s => (s.cur, s.disk)) =
-      some ([4, 5], [5, 3]) := by decide
+      some ([5, 6], [3, 6]) := by decide
 
 /-- the same schedule is not even enabled in the source's variant: its third unlink has no target -/
 theorem source_variant_has_no_third_unlink : (run outsCfg (init [1, 2] 3) earlySched).isNone = true := by decide
